@@ -122,6 +122,27 @@ let () =
         let want = ["ser=1"; "s=" ^ show (List.filter (fun i -> not (to_d i)) (range 0));
                     "d=" ^ show (List.filter to_d (range 0))] in
         Mlutil.print_model want (if outs = want then "ok" else "fail:listener-not-serial-or-not-in-emit-order")
+    | [j; _] when kind = "collide" ->
+        (* FileStore.gen_loop (the hasID loop of fix 0010) run on an index that holds the j ids the next
+           j draws would produce: predicts the counter of the id AddMessage returns. The probe counter c
+           is an environment observation (like a clock) and is taken from the implementation's line.
+           Oracle (ids_unique, read_back_as_written): the new id differs from every existing one and
+           every planted message still reads back its own content *)
+        let j = int_of_string j in
+        let field name = List.find_map (fun t ->
+          let p = name ^ "=" in
+          let lp = String.length p in
+          if String.length t > lp && String.sub t 0 lp = p then int_of_string_opt (String.sub t lp (String.length t - lp)) else None) outs in
+        (match field "c" with
+         | None -> Mlutil.print_model ["NO-COUNTER"] "fail:no-observation"
+         | Some c ->
+             let m = { m_date = z_of_int 0; m_tag = n_of_int 0; m_size = n_of_int 0; m_seen = false } in
+             let rec planted k = if k > j then [] else ((n_of_int 0, n_of_int ((c + k) mod 10000)), m) :: planted (k + 1) in
+             let ((sec, ctr), _) = gen_loop gen_fuel (n_of_int 0) (n_of_int ((c + 1) mod 10000)) (planted 1) in
+             let want = [Printf.sprintf "c=%d" c; Printf.sprintf "ctr=%d" (int_of_n ctr); "fresh=1"; "intact=1";
+                         Printf.sprintf "n=%d" (2 + 3 * j)] in
+             let ok = int_of_n sec = 0 && field "fresh" = Some 1 && field "intact" = Some 1 && field "n" = Some (2 + 3 * j) in
+             Mlutil.print_model want (if ok then "ok" else "fail:id-collision-not-avoided-or-message-overwritten"))
     | [_; _; _; _] when kind = "churn" ->
         (* Events.v Part 4 / theorem emit_reaches_every_stable_listener: every permanent listener is
            handed every event exactly once whatever the probes do *)
